@@ -243,7 +243,9 @@ class HistoryRun(object):
       drift = ed.numeric_drift(before, mid)
       if circ_order_only(doc, d):
         self._find("C01", CIRC_ORDER_SIG % "undo", "; ".join(d[:3]), rec)
-      elif drift and all(x.startswith("cell") for x in d):
+      elif stale_lookup_only(doc, d):
+        self._find("C01", STALE_LOOKUP_SIG % "undo", "; ".join(d[:3]), rec)
+      elif drift:
         self._find("C01", DRIFT_SIG % "undo", "%s; drift at %r" % ("; ".join(d[:2]), drift[:2]), rec)
       else:
         self._find("C01", classify_diff("undo", d[0], rec), "; ".join(d[:3]), rec)
@@ -268,6 +270,8 @@ class HistoryRun(object):
         drift = ed.numeric_drift(after, post)
         if circ_order_only(doc, d2):
           self._find("C03", CIRC_ORDER_SIG % "redo", "; ".join(d2[:3]), rec)
+        elif stale_lookup_only(doc, d2):
+          self._find("C03", STALE_LOOKUP_SIG % "redo", "; ".join(d2[:3]), rec)
         elif drift_mid and not drift:
           # the undo already left numbers of another numeric type behind (C01's drift finding);
           # whatever the redo then computes differently (e.g. summary rows re-keyed) follows from it
@@ -430,6 +434,42 @@ def circ_order_only(doc, diffs):
     if (CIRC in m.group(2)) == (CIRC in m.group(3)):
       return False
     if not any("lookup" in (c[2] or "") for c in sch.get(m.group(1), {}).values()):
+      return False
+  return True
+
+
+STALE_LOOKUP_SIG = ("%s: formula with a lookup keyed or ordered on a column that no longer exists held a stale result "
+                    "and is now recomputed (see the C05 finding)")
+
+
+def stale_lookup_formula(sch, t, c):
+  """Column t.c's formula looks records up by (or orders them by) a column the target table lacks."""
+  import re
+  info = sch.get(t, {}).get(c)
+  if not info or not info[2]:
+    return False
+  for m in re.finditer(r"(\w+)\.lookup(?:One|Records)\(([^()]*(?:\([^()]*\)[^()]*)*)\)", info[2]):
+    tgt, args = m.group(1), m.group(2)
+    if tgt not in sch:
+      return True
+    for kw, val in re.findall(r"(?:^|,)\s*(\w+)\s*=\s*([^,]*)", args):
+      if kw in ("order_by", "sort_by"):
+        for name in re.findall(r"['\"]-?(\w+)['\"]", val):
+          if name not in sch[tgt] and name != "id":
+            return True
+      elif kw not in sch[tgt] and kw != "id":
+        return True
+  return False
+
+
+def stale_lookup_only(doc, diffs):
+  import re
+  sch = doc.engine_schema()
+  if not diffs:
+    return False
+  for d in diffs:
+    m = re.match(r"cell (\w+)\[\d+\]\.(\S+): ", d)
+    if not m or not stale_lookup_formula(sch, m.group(1), m.group(2)):
       return False
   return True
 
